@@ -14,7 +14,8 @@ import (
 
 // wt protocol (C16, WaitTimeout):
 //
-//	wt <timeoutMs> <signalAtMs|-1|-2> <sig|bcast> <ghosts>      (-2: the signaller already waits for the mutex when the call starts)
+//	wt <timeoutMs> <signalAtMs|-1|-2|-3> <sig|bcast> <ghosts>   (-2: the signaller already waits for the mutex when the call starts;
+//	                                                             -3: no signal, and ANOTHER goroutine is already parked in cond.Wait on the same condition variable)
 //
 // The caller locks L and calls machine.WaitTimeout(cond, timeoutMs); another goroutine
 // signals/broadcasts at signalAtMs (never, if -1) while holding L, as sync.Cond users do.
@@ -46,6 +47,10 @@ func wtGen(seed uint64, tier string) {
 	proto.Reply("wt 3000 80 bcast 3")
 	proto.Reply("wt 40 -1 sig 2")
 	proto.Reply("wt 3000 80 sig 1")
+	for _, t := range []int{0, 30, 200} {
+		proto.Reply("wt %d -3 sig 0", t)
+	}
+	proto.Reply("wt 40 -3 sig 2")
 	for i := 0; i < 3; i++ {
 		proto.Reply("wt 1500 -2 sig 0")
 		proto.Reply("wt 1500 -2 bcast 0")
@@ -135,10 +140,35 @@ func wtOne(w []string) string {
 			}
 			return
 		}
+		released := make(chan struct{})
+		if sigAt == -3 {
+			parked := make(chan struct{})
+			go func() {
+				mu.Lock()
+				close(parked)
+				cond.Wait()
+				mu.Unlock()
+				close(released)
+			}()
+			<-parked
+			mu.Lock() // succeeds once the other goroutine is inside Wait (registered, mutex released)
+			mu.Unlock()
+		}
 		mu.Lock()
 		t0 := time.Now()
 		machine.WaitTimeout(cond, uint64(timeout))
 		el := time.Since(t0)
+		if sigAt == -3 {
+			defer func() {
+				mu.Lock()
+				cond.Broadcast()
+				mu.Unlock()
+				select {
+				case <-released:
+				case <-time.After(2 * time.Second):
+				}
+			}()
+		}
 		held := "held"
 		if mu.TryLock() {
 			held = "notheld"
